@@ -673,6 +673,17 @@ func (r *vcReplayer) run() string {
 			vhEmit(vhRec{"k": "infra", "v": fmt.Sprintf("%s: %v", s.Act, err)})
 			return "infra"
 		}
+		// a delivery is recorded by the client's own goroutine, after the multiplexer's goroutine handed it over: both may lag behind
+		// the handler (RetryTick returns once the multiplexer has taken the message). Expected deliveries are waited for; one that
+		// never comes is still missing after the wait
+		for t0 := time.Now(); time.Since(t0) < 3*time.Second; time.Sleep(200 * time.Microsecond) {
+			w.mu.Lock()
+			n := len(w.delivered)
+			w.mu.Unlock()
+			if n >= len(s.Exp.Delivered) {
+				break
+			}
+		}
 		sends, delivered := w.takeOutputs()
 		// --- every transmitted catalogue bundle must be a faithful copy (C06)
 		expSend := map[string]*vcSendExp{}
